@@ -413,6 +413,48 @@ def iterator_step_rules(ck, c):
           "every child taken by the iterator comes out of make_owned (migrated to the current generation)" if len(via) == len(idx_all) and not direct else
           "the iterator reads a child list without make_owned (%d of %d child reads, %d direct get_owned): children owned by an older generation are visited in place" % (len(idx_all) - len(via), len(idx_all), len(direct)),
           f.loc(direct[0][0]) if direct else f.loc())
+    # exhaustion is final: when next() reports the end (Ok(None) with an empty stack) the position it leaves behind is not the
+    # initial one (next_child == None means "this node has not been entered yet"). Every path from a point where next_child is
+    # cleared - an assignment of None or Option::take - to the exhausted return passes an assignment of Some(..)
+    def _variant_of(local):
+        vs = set()
+        for (b2, s2, it) in f.defs().get(local, []):
+            rv = it.get("rv", {}) if s2 != "t" else {}
+            if rv.get("k") == "agg" and rv.get("adt", "").endswith("Option"):
+                vs.add(rv.get("variant"))
+            elif rv.get("k") == "use" and op_const(rv["a"]) is not None:
+                vs.add("None" if str(op_const(rv["a"]).get("s", "")).endswith("None") else "?")
+            else:
+                vs.add("?")
+        return vs
+    clears, sets_ = set(), set()
+    for bi in sorted(f.reachable()):
+        for st in f.stmts(bi):
+            if "lhs" in st and st["lhs"][1] and re.search(r":next_child$", str(st["lhs"][1][-1])):
+                pl = op_place(st["rv"].get("a")) if st["rv"].get("k") == "use" else None
+                vs = _variant_of(pl[0]) if pl and not pl[1] else ({st["rv"].get("variant")} if st["rv"].get("k") == "agg" else {"?"})
+                (clears if vs == {"None"} else sets_).add(bi)
+    for (bi, t) in f.calls(r"Option::<T>::take$|mem::take$|mem::replace$"):
+        if any(("field", "next_child") in f.origins(a) for a in t["args"]):
+            clears.add(bi)
+    done = set()
+    for (bi, si, it) in f.defs().get(0, []):
+        rv = it.get("rv", {}) if si != "t" else {}
+        if rv.get("k") == "agg" and rv.get("variant") == "Ok":
+            pl = op_place(rv["ops"][0])
+            k0 = op_const(rv["ops"][0])
+            if (k0 is not None and str(k0.get("s", "")).endswith("None")) or (pl and not pl[1] and _variant_of(pl[0]) == {"None"}):
+                done.add(bi)
+    # (judged within one iteration of the stepping loop: across the back edge the cleared value is what makes the next
+    # iteration take the "enter this node" branch, which sets it; a path-insensitive walk through the header would not know)
+    heads = set()
+    for lp in natural_loops(f):
+        hs = [b for b in lp if all(f.dominates(b, x) for x in lp)]
+        heads |= set(hs)
+    leak = sorted(d for d in done if any(d in f.reach_from(f.succ(cb), avoid=sets_ | heads) for cb in clears))
+    ck.ob("DOM", f.path, "exhaustion-is-final", len(done) >= 1 and len(sets_) >= 1 and not leak,
+          "%d clearing and %d setting writes of next_child; the exhausted return is reached from a clearing write only through a setting one" % (len(clears), len(sets_)) if done and not leak else
+          "the exhausted return (Ok(None)) can be reached with next_child cleared and not set again: the next call starts over at the iterator's root and yields every entry a second time", f.loc(leak[0]) if leak else f.loc())
     pushes = [(bi, t) for (bi, t) in f.calls(r"Vec::<T, A>::push$") if ("field", "stack") in f.origins(t["args"][0], deep=True)]
     ok = False
     for (bi, t) in pushes:
